@@ -188,6 +188,10 @@ def judge_wire(pid, V, sc, lines, stats, rpc_faults_as_c13=False):
             complete = same_rows(l["cluster"], l["embedded"], sql)
             if not complete:
                 stats["faulted_incomplete"] += 1
+            if not complete and not told and " IN (SELECT" in sql and V.listed("subquery-partition-failure-not-reported"):
+                # D13: the failure hit the follower while it answered the query's IN-sub-query
+                V.known_finding(V.listed("subquery-partition-failure-not-reported"))
+                continue
             if not complete and not told:
                 rp = common.save_replay(pid, "%s-%s-silent" % (sc["scn"], l["id"]), {"wire": dict(sc, queries=[q for q in sc["queries"] if q["id"] == l["id"]]), "observed": l})
                 V.violation(rp, "%s: `%s` with the follower of partition %d failing after %d rows (over rpc) returned %d of %d rows and the caller was not told (no error, statistics %s)"
